@@ -62,7 +62,10 @@ type Contract struct {
 	Notes       []string
 	// Closure contracts: parameters of the form `apply fn(i, j) == expr` give
 	// meaning to function-typed parameters; see spec.go.
+	ReplayReq []string // extra input restrictions for the replay sweep (evaluation cost)
 	Uses  []string // lemma instances / axioms available in this function
+	Globals   []string // global invariants (preds) this function relies on
+	InitPhase bool     // runs during package initialisation: frozen globals are ordinary memory
 	Fresh []string // results that are freshly allocated
 	Bound bool     // set when a function was found for it
 }
@@ -79,6 +82,8 @@ type Lemma struct {
 	Induct   [][]string // each: substitution list "x := e"
 	Uses     []string   // "lemma(args...)" instances of other lemmas
 	Unfold   []string   // spec function applications to unfold explicitly
+	Opaque   bool       // recursive spec functions uninterpreted + explicit one-level unfoldings
+	Ranges   map[string][2]string
 	Kind     string     // smt | exhaust | eval
 	Tier     string     // "" or "thorough"
 }
@@ -96,7 +101,13 @@ type GhostDecl struct {
 }
 
 // IfaceContract: assumed contract for an interface method.
+type PredDecl struct {
+	Pkg, Name, Body, Pos string
+}
+
 type ContractSet struct {
+	Preds   map[string]*PredDecl // key pkgpath::name
+	Frozen  map[string]bool      // key pkgpath::global
 	Funcs   map[string]*Contract // key pkgpath + "." + relname
 	Lemmas  []*Lemma
 	Ghosts  []GhostDecl
@@ -127,6 +138,7 @@ func (cs *ContractSet) parseFile(fset *token.FileSet, pkgPath string, f *ast.Fil
 	var cur *Contract
 	var curLoop *LoopContract
 	var curLemma *Lemma
+	var lastPred *PredDecl
 	for _, ln := range lines {
 		body := strings.TrimSpace(ln.text)
 		if body == "" {
@@ -136,6 +148,7 @@ func (cs *ContractSet) parseFile(fset *token.FileSet, pkgPath string, f *ast.Fil
 		word, rest := splitWord(body)
 		switch word {
 		case "func":
+			lastPred = nil
 			cur = &Contract{Pkg: pkgPath, Func: rest, Pos: ln.pos, Loops: map[int]*LoopContract{}}
 			curLoop = nil
 			curLemma = nil
@@ -147,10 +160,27 @@ func (cs *ContractSet) parseFile(fset *token.FileSet, pkgPath string, f *ast.Fil
 			cs.Order = append(cs.Order, k)
 			continue
 		case "lemma":
+			lastPred = nil
 			curLemma = &Lemma{Pkg: pkgPath, Name: rest, Pos: ln.pos, Mode: ModeBV, Kind: "smt"}
 			cs.Lemmas = append(cs.Lemmas, curLemma)
 			cur = nil
 			curLoop = nil
+			continue
+		case "frozen":
+			for _, g := range strings.Fields(rest) {
+				cs.Frozen[contractKey(pkgPath, g)] = true
+			}
+			continue
+		case "pred":
+			parts := strings.SplitN(rest, "=", 2)
+			if len(parts) != 2 {
+				cs.Errors = append(cs.Errors, ln.pos+": bad pred")
+				continue
+			}
+			name := strings.TrimSpace(parts[0])
+			cs.Preds[contractKey(pkgPath, name)] = &PredDecl{pkgPath, name, strings.TrimSpace(parts[1]), ln.pos}
+			cur, curLoop, curLemma = nil, nil, nil
+			lastPred = cs.Preds[contractKey(pkgPath, name)]
 			continue
 		case "ghost":
 			// ghost <name> <type> = <init>
@@ -164,6 +194,10 @@ func (cs *ContractSet) parseFile(fset *token.FileSet, pkgPath string, f *ast.Fil
 			continue
 		}
 		cl := SpecClause{Text: rest, Pos: ln.pos}
+		if word == "|" && cur == nil && curLemma == nil && lastPred != nil {
+			lastPred.Body += " " + rest
+			continue
+		}
 		if curLemma != nil {
 			switch word {
 			case "props":
@@ -194,6 +228,18 @@ func (cs *ContractSet) parseFile(fset *token.FileSet, pkgPath string, f *ast.Fil
 				curLemma.Uses = append(curLemma.Uses, rest)
 			case "unfold":
 				curLemma.Unfold = append(curLemma.Unfold, rest)
+			case "opaque":
+				curLemma.Opaque = true
+			case "range":
+				f := strings.Fields(rest)
+				if len(f) != 3 {
+					cs.Errors = append(cs.Errors, ln.pos+": range <var> <lo> <hi>")
+				} else {
+					if curLemma.Ranges == nil {
+						curLemma.Ranges = map[string][2]string{}
+					}
+					curLemma.Ranges[f[0]] = [2]string{f[1], f[2]}
+				}
 			case "kind":
 				curLemma.Kind = rest
 			case "tier":
@@ -274,6 +320,12 @@ func (cs *ContractSet) parseFile(fset *token.FileSet, pkgPath string, f *ast.Fil
 			} else {
 				cs.Errors = append(cs.Errors, ln.pos+": use-step outside loop")
 			}
+		case "replay-requires":
+			cur.ReplayReq = append(cur.ReplayReq, rest)
+		case "global":
+			cur.Globals = append(cur.Globals, strings.Fields(rest)...)
+		case "init-phase":
+			cur.InitPhase = true
 		case "assume-contract":
 			cur.Assumed = true
 			if rest != "" {
